@@ -5,6 +5,8 @@ at a chosen point.  Run as:  /venv/bin/python c11_child.py SPEC.json   (PYTHONPA
 spec = {"log": path, "ackfd": n, "ops": [...], "sink": "raw"|"buffered", "chunk": bytes per os.write,
         "kill": null | {"at": "before-write"|"in-write"|"after-write"|"after-flush", "n": message index (0-based),
                         "chunks": c | null, "offset": o | null}}
+     kill {"at": "after-nested-ack", "n": k}: right after the k-th logging call made by the JSON default hook has returned
+     field value {"$noisy": n}: an object the hook logs a message ("hook:note", n=n) about before returning "noisy-<n>"
 ops: {"op":"msg","type":t,"fields":{..}} | {"op":"action","type":t,"fields":{..},"body":[..],"fail":bool,"end":{..}}
      field values: JSON values; {"$big": n, "c": ch} stands for a string of n characters.
 Ack pipe: b"R" once eliot is imported and the destination installed, b"W<len>;" when write() is entered
@@ -80,9 +82,18 @@ class KillFile(object):
             die()
 
 
+class Noisy(object):
+    """a value the JSON default hook of this program knows - and logs a message about, from inside the destination"""
+
+    def __init__(self, n):
+        self.n = n
+
+
 def expand(v):
     if isinstance(v, dict) and "$big" in v:
         return str(v.get("c", "x")) * int(v["$big"])
+    if isinstance(v, dict) and "$noisy" in v:
+        return Noisy(int(v["$noisy"]))
     if isinstance(v, dict):
         return {k: expand(x) for k, x in v.items()}
     if isinstance(v, list):
@@ -104,10 +115,27 @@ def main():
         with open(os.path.join(os.path.dirname(sys.argv[1]), "whoami"), "w") as wf:
             wf.write(eliot.__file__)
     f = KillFile(fd, spec)
-    eliot.to_file(f)
 
     def ack():
         os.write(ackfd, b"A")
+
+    nested = [0]
+    kill = spec.get("kill")
+
+    def hook(o):
+        # a caller's json_default that logs: the logging call is made from inside FileDestination.__call__
+        # (re-entrant logging on the same thread); it is acknowledged like every other logging call
+        if isinstance(o, Noisy):
+            log_message(message_type="hook:note", n=o.n)
+            ack()
+            if kill is not None and kill["at"] == "after-nested-ack" and kill["n"] == nested[0]:
+                die()
+            nested[0] += 1
+            return "noisy-%d" % o.n
+        from eliot.json import json_default
+        return json_default(o)
+
+    eliot.to_file(f, json_default=hook)
 
     def run(ops):
         for op in ops:
